@@ -160,6 +160,21 @@ func (c *Ctx) c16Recipient(pe *pluginEnv, u uiCfg, kind string, out []byte) {
 	in := map[string]interface{}{"machine": "recipient-v1", "kind": kind, "ui": u, "plugin_output": string(out)}
 	c.Compare("plugin.Recipient.WrapWithLabels~Plugin.recipient_client", in, lst(hx(masked), implRes), lst(hx(mt), mres))
 	c.c16Oracles(in, out, got, werr == nil)
+	// at most one labels stanza is accepted
+	{
+		nl := 0
+		sr := format.NewStanzaReader(bufio.NewReader(bytes.NewReader(out)))
+		for {
+			st, err := sr.ReadStanza()
+			if err != nil || st.Type == "done" || st.Type == "error" {
+				break
+			}
+			if st.Type == "labels" {
+				nl++
+			}
+		}
+		c.Oracle("labels-accepted-at-most-once", !(werr == nil && nl > 1), "repeated-labels-accepted", in, fmt.Sprintf("Wrap succeeded although the plugin sent %d labels stanzas", nl))
+	}
 	c.note("r:"+kind+fmt.Sprint(u)+string(out), true)
 	c.count("recipient-" + kind)
 }
@@ -194,6 +209,11 @@ func (c *Ctx) c16Identity(pe *pluginEnv, u uiCfg, kind string, out []byte, hdr [
 	in := map[string]interface{}{"machine": "identity-v1", "kind": kind, "ui": u, "plugin_output": string(out)}
 	c.Compare("plugin.Identity.Unwrap~Plugin.identity_client", in, lst(hx(masked), implRes), lst(hx(mt), mres))
 	c.c16Oracles(in, out, got, uerr == nil)
+	// a plugin that just says `done` has no file key for this file: that is "incorrect identity" (Decrypt then
+	// goes on to the next identity), recognisable with errors.Is
+	if string(out) == "-> done\n\n" {
+		c.Oracle("no-file-key-is-incorrect-identity", implRes == ":incorrect", "incorrect-identity-not-recognisable", in, "the plugin ended without a file key but the error is not ErrIncorrectIdentity: "+fmt.Sprint(uerr))
+	}
 	// protocol oracles stated on the implementation
 	if uerr == nil {
 		// count the file-key messages the plugin sent before it said "done"
